@@ -13,7 +13,7 @@ R07.4 (K2): TransportManager::on_connection_closed yields TransportEvent::Connec
 """
 import re
 from paths import Inter
-from common import exit_desc, short, local_used, for_loops, loop_left_early
+from common import nested_closures, exit_desc, short, local_used, for_loops, loop_left_early
 
 EXPLANATION = ("All-paths structural obligations on the MIR CFG (pre-coroutine-transform) of the connection event loops "
                "and ProtocolSet report functions: every exit of each transport's connection loop is preceded by the close "
@@ -173,7 +173,7 @@ def r07_6(ctx, fx):
         ctx.anchor("R07.6", "%s: protocol notification sites" % meth, len(polls) + len(seq), 1, cfg=fx.cfg)
         # R07.8: a protocol is told with the waiting send; a `try_send` gives up on a protocol whose channel is momentarily full, and that
         # protocol then never learns about the connection (closed: stale context forever)
-        holders = [fn] + [fx.fn(k) for k in sorted(fx.find("^" + re.escape(fn.key) + r"::\{closure#\d+\}"))]
+        holders = [fn] + nested_closures(fx, fn)
         trys = [(h, c) for h in holders for c in h.calls(r"mpsc::(bounded::)?Sender::try_send$|Sender::try_reserve$|Sender::send_timeout$")
                 if any("InnerTransportEvent" in a for a in c.f.get("args", []))]
         waits = [(h, c) for h in holders for c in h.calls(r"mpsc::(bounded::)?Sender::send$") if any("InnerTransportEvent" in a for a in c.f.get("args", []))]
